@@ -14,7 +14,7 @@ Leaves bound here (none of them is decided inside get_equations_for):
 
 GROUP = {'name': 'GraphEqs',
  'imports': ['Cellml.Tie.GraphView'],
- 'header': 'open C09',
+ 'header': 'open Cellml.Tie.PGraph\nopen C09',
  'functions': [{'file': 'cellmlmanip/model.py',
                 'func': 'Model.get_equations_for',
                 'lean_name': 'getEquationsFor',
